@@ -101,7 +101,7 @@ theorem mark_aux (hlen : ∀ x, (H x).length = 32) :
       obtain ⟨h1, h2, h3, h4, h5, h6, h7, h8, h9, h10⟩ :=
         ih (PT.loaded H t) t m key hrl (proper_loaded t) (noEmp_loaded t) hu hok hk hf'
       simp only [markToCollect, hres, h1]
-      refine ⟨h1, h2, h3, h4, h5, ?_, ?_, ?_, h9, fun _ => h10 (loaded_ne_empty hn)⟩
+      refine ⟨trivial, h2, h3, h4, h5, ?_, ?_, ?_, h9, fun _ => h10 (loaded_ne_empty hn)⟩
       · rw [h6, hrl.weight]; rfl
       · rw [h7, loaded_isNil hn]; rfl
       · rw [h8, loaded_dirty]; rfl
@@ -113,7 +113,7 @@ theorem mark_aux (hlen : ∀ x, (H x).length = 32) :
       by_cases htest : shortMatches sk key = false
       · have ht := (short_test_iff sk key).mpr htest
         simp only [markToCollect, ht, if_true]
-        refine ⟨rfl, Rep.short sk h c d true tc' hc hcl, ?_, ?_, ?_, rfl, rfl, rfl, rfl, by simp⟩
+        refine ⟨trivial, Rep.short sk h c d true tc' hc hcl, ?_, ?_, ?_, rfl, rfl, rfl, rfl, by simp⟩
         · simpa only [Proper] using hp
         · simpa only [NoEmp] using hne
         · simp [Marked, htest]
@@ -153,7 +153,7 @@ theorem mark_aux (hlen : ∀ x, (H x).length = 32) :
         obtain ⟨h1, h2, h3, h4, h5, h6, h7, h8, h9, h10⟩ :=
           ih (ch k) (f k) (m - 1) ks (hch k) (hp k).2 (hne k).2 (hu.2 k) (hok.child k) (by omega) hf'
         simp only [markToCollect, h1]
-        refine ⟨rfl, ?_, ?_, ?_, ?_, rfl, rfl, rfl, rfl, by simp⟩
+        refine ⟨trivial, ?_, ?_, ?_, ?_, rfl, rfl, rfl, rfl, by simp⟩
         · refine Rep.routing h _ cw d true f ?_ ?_ hcw hcl
           · intro i
             unfold upd; split
@@ -170,7 +170,209 @@ theorem mark_aux (hlen : ∀ x, (H x).length = 32) :
         · simp only [Marked, upd_same]
           exact ⟨trivial, h5⟩
 
+/-- 1. the marking walk of one key through a trie with references into the storage.  A reference at the top is
+replaced by the loaded (and marked) node, so the result is never a reference. -/
+theorem mark_ok (hlen : ∀ x, (H x).length = 32) {n : WN} {t : PT} {m fuel : Nat} {key : List Nib}
+    (hrep : RepS H s n t) (hp : Proper n) (hne : NoEmp n) (hu : Uniform m t) (hok : PTOK t) (hk : key.length = m)
+    (hf : 2 * m + 2 ≤ fuel) :
+    let r := markToCollect true s fuel n key
+    r.err = none ∧ RepS H s r.node t ∧ Proper r.node ∧ NoEmp r.node ∧ Marked r.node key ∧
+      r.node.weight = n.weight ∧ r.node.isNil = n.isNil ∧ r.node.dirty = n.dirty ∧ isRef r.node = false ∧
+      (n ≠ .empty → r.node ≠ .empty) :=
+  mark_aux hlen fuel n t m key hrep hp hne hu hok hk (Nat.le_trans (need_le n key) (by omega))
+
 end One
+
+/-! ### 2. marking only adds marks -/
+
+/-- 2. a path that is reference-free and marked stays so, whatever the walk does (also when it fails) -/
+theorem mark_preserves (hasDb : Bool) (s : Store) :
+    ∀ (fuel : Nat) (n : WN) (key q : List Nib), Marked n q → Marked (markToCollect hasDb s fuel n key).node q := by
+  intro fuel
+  induction fuel with
+  | zero => intro n key q h; exact h
+  | succ fuel ih =>
+    intro n key q hm
+    cases n with
+    | nil => exact hm
+    | empty => exact hm
+    | value h v w d => exact hm
+    | hashRef h w => simp [Marked] at hm
+    | short sk h c d tc =>
+      simp only [markToCollect]
+      split
+      · simpa only [Marked] using hm
+      · simp only [Marked] at hm ⊢
+        split
+        · rename_i hq
+          rw [if_pos hq] at hm
+          exact ih c _ _ hm
+        · trivial
+    | routing h ch w d tc =>
+      cases key with
+      | nil => exact hm
+      | cons k ks =>
+        cases q with
+        | nil =>
+          simp only [markToCollect]
+          split <;> simp [Marked]
+        | cons q0 qs =>
+          simp only [Marked] at hm
+          obtain ⟨htc, hmq⟩ := hm
+          have hch : Marked (upd ch k (markToCollect hasDb s fuel (ch k) ks).node q0) qs := by
+            unfold upd; split
+            · rename_i e; rw [e] at hmq; exact ih (ch k) ks qs hmq
+            · exact hmq
+          simp only [markToCollect]
+          split
+          · simp only [Marked]; exact ⟨htc, hch⟩
+          · simp only [Marked]; exact ⟨trivial, hch⟩
+
+/-! ### 3. all requested keys -/
+
+section All
+variable {H : Bytes → Bytes} {s : Store}
+
+/-- 3. the marking loop of `GetPath` over keys of the one length `m` of the trie -/
+theorem markAll_ok (hlen : ∀ x, (H x).length = 32) {t : PT} {m : Nat} (hu : Uniform m t) (hok : PTOK t) :
+    ∀ (keys : List (List Nib)) (n : WN), (∀ k ∈ keys, k.length = m) →
+    RepS H s n t → Proper n → NoEmp n →
+    let r := markAll true s n keys
+    r.err = none ∧ RepS H s r.node t ∧ Proper r.node ∧ NoEmp r.node ∧ r.node.weight = n.weight ∧
+      r.node.isNil = n.isNil ∧ r.node.dirty = n.dirty ∧ (n ≠ .empty → r.node ≠ .empty) ∧
+      (keys ≠ [] → isRef r.node = false) ∧
+      (∀ q, Marked n q → Marked r.node q) ∧ ∀ k ∈ keys, Marked r.node k := by
+  intro keys
+  induction keys with
+  | nil =>
+    intro n _ hrep hp hne
+    exact ⟨rfl, hrep, hp, hne, rfl, rfl, rfl, fun h => h, fun h => absurd rfl h, fun _ h => h, fun _ h => by cases h⟩
+  | cons k ks ih =>
+    intro n hlk hrep hp hne
+    have hk : k.length = m := hlk k List.mem_cons_self
+    obtain ⟨h1, h2, h3, h4, h5, h6, h7, h8, h9, h10⟩ :=
+      mark_ok (fuel := fuelFor k) hlen hrep hp hne hu hok hk (by have := fuelFor_ok k; omega)
+    obtain ⟨g1, g2, g3, g4, g5, g6, g7, g8, g9, g10, g11⟩ :=
+      ih (markToCollect true s (fuelFor k) n k).node (fun x hx => hlk x (List.mem_cons_of_mem _ hx)) h2 h3 h4
+    simp only [markAll, h1]
+    refine ⟨g1, g2, g3, g4, g5.trans h6, g6.trans h7, g7.trans h8, fun e => g8 (h10 e), fun _ => ?_,
+      fun q hq => g10 q (mark_preserves true s _ n k q hq), ?_⟩
+    · cases ks with
+      | nil => exact h9
+      | cons k2 ks2 => exact g9 (by simp)
+    · intro x hx
+      rcases List.mem_cons.mp hx with rfl | hx
+      · exact g10 _ h5
+      · exact g11 x hx
+
+end All
+
+/-! ### 4. the root of `GetPath` -/
+
+/-- the first step of `getPath`: a root that is a reference is loaded from the storage -/
+def loadRoot (t : WT) : Res WN :=
+  match t.root with
+  | .hashRef h _ =>
+    (match t.store.get h with
+      | none => .err .kvNotFound
+      | some data => match Cbor.decBase data with
+        | none => .err .other
+        | some p => deserializeNode p)
+  | n => .ok n
+
+/-- the node `getPath` hands to `collectNodes` (`none`: loading the root or the marking walk failed) -/
+def markedRoot (t : WT) (keys : List (List Nib)) : Option WN :=
+  match loadRoot t with
+  | .err _ => none
+  | .ok root =>
+    let m := markAll t.hasDb t.store root keys
+    match m.err with
+    | some _ => none
+    | none => some m.node
+
+section Root
+variable (H : Bytes → Bytes)
+
+/-- `markedRoot` is the first half of `getPath` -/
+theorem getPath_of_markedRoot (t : WT) (keys : List (List Nib)) (n' : WN) (h : markedRoot t keys = some n') :
+    getPath H t keys =
+      ({ t with root := (collectNodes H n').1 }, .ok (Cbor.encTrie (collectNodes H n').2)) := by
+  unfold markedRoot at h
+  have e : getPath H t keys = (match loadRoot t with
+    | .err e => (t, .err e)
+    | .ok root =>
+      let m := markAll t.hasDb t.store root keys
+      match m.err with
+      | some .kvNotFound => ({ t with root := m.node }, .err .notFound)
+      | some e => ({ t with root := m.node }, .err e)
+      | none =>
+        let c := collectNodes H m.node
+        ({ t with root := c.1 }, .ok (Cbor.encTrie c.2))) := rfl
+  rw [e]
+  cases hl : loadRoot t with
+  | err e => rw [hl] at h; cases h
+  | ok root =>
+    rw [hl] at h
+    simp only at h ⊢
+    cases hm : (markAll t.hasDb t.store root keys).err with
+    | some e => rw [hm] at h; cases h
+    | none =>
+      rw [hm] at h
+      simp only [Option.some.injEq] at h
+      subst h
+      rfl
+
+variable {H}
+
+theorem loadRoot_eq (t : WT) : loadRoot t = (match t.root with
+    | .hashRef h _ => resolveHash true t.store h
+    | n => .ok n) := by
+  unfold loadRoot resolveHash
+  cases t.root with
+  | hashRef h w =>
+    simp only [Bool.not_true, Bool.false_eq_true, if_false]
+    cases t.store.get h with
+    | none => rfl
+    | some data => cases Cbor.decBase data <;> rfl
+  | _ => rfl
+
+/-- loading the root: the loaded node represents the same tree and is no reference -/
+theorem loadRoot_ok (hlen : ∀ x, (H x).length = 32) (t : WT) {ts : PT} {m : Nat}
+    (hrep : RepS H t.store t.root ts) (hp : Proper t.root) (hne : NoEmp t.root) (hu : Uniform m ts) (hok : PTOK ts) :
+    ∃ root, loadRoot t = .ok root ∧ RepS H t.store root ts ∧ Proper root ∧ NoEmp root ∧ isRef root = false ∧
+      root.weight = t.root.weight := by
+  rw [loadRoot_eq]
+  generalize t.root = n at hrep hp hne
+  cases hrep with
+  | nil => exact ⟨_, rfl, Rep.nil, hp, hne, rfl, rfl⟩
+  | empty => exact ⟨_, rfl, Rep.empty, hp, hne, rfl, rfl⟩
+  | value h v w d hcl => exact ⟨_, rfl, Rep.value h v w d hcl, hp, hne, rfl, rfl⟩
+  | short k h c d tc tc' hc hcl => exact ⟨_, rfl, Rep.short k h c d tc tc' hc hcl, hp, hne, rfl, rfl⟩
+  | routing h ch w d tc f hch hroute hw hcl => exact ⟨_, rfl, Rep.routing h ch w d tc f hch hroute hw hcl, hp, hne, rfl, rfl⟩
+  | ref _ hn hst =>
+    have hres := resolve_stored H hlen t.store ts hn hst hok.1 hok.2
+    have hrl := rep_loaded hst hn hu
+    exact ⟨PT.loaded H ts, hres, hrl, proper_loaded ts, noEmp_loaded ts, loaded_not_ref hn, hrl.weight⟩
+
+/-- 4. `GetPath(keys)` on a trie with a storage: the node handed to `collectNodes` represents the same tree, is no
+reference, and the path of every requested key is marked -/
+theorem getPath_marks (hlen : ∀ x, (H x).length = 32) (t : WT) {ts : PT} {m : Nat} (keys : List (List Nib))
+    (hdb : t.hasDb = true) (hrep : RepS H t.store t.root ts) (hp : Proper t.root) (hne : NoEmp t.root)
+    (hu : Uniform m ts) (hok : PTOK ts) (hlk : ∀ k ∈ keys, k.length = m) :
+    ∃ n', markedRoot t keys = some n' ∧
+      getPath H t keys = ({ t with root := (collectNodes H n').1 }, .ok (Cbor.encTrie (collectNodes H n').2)) ∧
+      RepS H t.store n' ts ∧ Proper n' ∧ NoEmp n' ∧ isRef n' = false ∧ n'.weight = t.root.weight ∧
+      ∀ k ∈ keys, Marked n' k := by
+  obtain ⟨root, hl, r1, r2, r3, r4, r5⟩ := loadRoot_ok hlen t hrep hp hne hu hok
+  obtain ⟨g1, g2, g3, g4, g5, g6, g7, g8, g9, g10, g11⟩ := markAll_ok (s := t.store) hlen hu hok keys root hlk r1 r2 r3
+  have hmr : markedRoot t keys = some (markAll true t.store root keys).node := by
+    simp only [markedRoot, hl, hdb, g1]
+  refine ⟨_, hmr, getPath_of_markedRoot H t keys _ hmr, g2, g3, g4, ?_, g5.trans r5, g11⟩
+  cases keys with
+  | nil => exact r4
+  | cons k ks => exact g9 (by simp)
+
+end Root
 
 end Mark
 end Verif.Wmpt
